@@ -19,6 +19,7 @@ type Ob struct {
 	Pos       string `json:"pos"`
 	Verdict   string `json:"verdict"` // discharged | violated | undecided | known
 	Detail    string `json:"detail,omitempty"`
+	Config    string `json:"config,omitempty"` // build configuration (thorough tier re-runs under extra ones)
 }
 
 func (o Ob) Key() string { return o.Rule + "|" + o.Construct }
@@ -40,6 +41,9 @@ var registry = map[string]*Prop{}
 
 var evidenceDir string
 
+// thoroughConfigs are the extra (tags, GOARCH) configurations of the thorough tier.
+var thoroughConfigs = [][2]string{{"", "386"}, {"synctests", ""}}
+
 func register(p *Prop) { registry[p.ID] = p }
 
 // Ctx accumulates the result of one property run.
@@ -55,6 +59,8 @@ type Ctx struct {
 	extra    map[string]any
 	cur      *Module
 	fatalErr []string
+	// build-configuration override of the thorough tier
+	ovTags, ovArch string
 }
 
 func (c *Ctx) thorough() bool { return c.Tier == "thorough" }
@@ -63,6 +69,9 @@ func (c *Ctx) thorough() bool { return c.Tier == "thorough" }
 func (c *Ctx) Load(rel string) *Module { return c.LoadCfg(rel, "", "") }
 
 func (c *Ctx) LoadCfg(rel, tags, goarch string) *Module {
+	if tags == "" && goarch == "" {
+		tags, goarch = c.ovTags, c.ovArch
+	}
 	m, err := LoadModule(rel, tags, goarch)
 	if err != nil {
 		c.Undecided("load", rel, token.NoPos, nil, err.Error())
@@ -88,6 +97,9 @@ func (c *Ctx) LoadCfg(rel, tags, goarch string) *Module {
 }
 
 func (c *Ctx) add(o Ob) {
+	if c.ovTags != "" || c.ovArch != "" {
+		o.Config = strings.TrimSpace("tags=" + c.ovTags + " goarch=" + c.ovArch)
+	}
 	c.Obs = append(c.Obs, o)
 	c.ruleCnt[o.Rule]++
 }
@@ -207,6 +219,16 @@ func runProp(p *Prop, tier, verifDir string, seed int64) int {
 			}
 		}()
 		p.Run(c)
+		if tier == "thorough" {
+			// the same rules over the other build configurations of the repository:
+			// 32-bit ints (constant evaluation, conversions) and the synctests tag
+			// (channel-based mutexes replace sync.Mutex in pkg/kgo)
+			for _, cfg := range thoroughConfigs {
+				c.ovTags, c.ovArch = cfg[0], cfg[1]
+				p.Run(c)
+			}
+			c.ovTags, c.ovArch = "", ""
+		}
 	}()
 	known, err := loadFindings(filepath.Join(verifDir, "known_findings.jsonl"))
 	if err != nil {
@@ -327,7 +349,11 @@ func runProp(p *Prop, tier, verifDir string, seed int64) int {
 			if o.Verdict == "undecided" {
 				tag = "UNDECIDED"
 			}
-			fmt.Printf("%s %s rule=%s construct=%s at %s: %s\n", tag, p.ID, o.Rule, o.Construct, o.Pos, o.Detail)
+			cfgs := ""
+			if o.Config != "" {
+				cfgs = " [" + o.Config + "]"
+			}
+			fmt.Printf("%s %s rule=%s construct=%s%s at %s: %s\n", tag, p.ID, o.Rule, o.Construct, cfgs, o.Pos, o.Detail)
 		}
 		fmt.Printf("VIOLATION property=%s replay=%s\n", p.ID, vpath)
 		return 1
